@@ -57,11 +57,19 @@ def rule_sort_axis(ctx):
     fa = ctx.fn('dimarray.core.align.argsort')
     ev = run(ctx, fa, mode='join')
     okk = False
-    for p in ret_paths(ev):
-        v = p.value
-        if v[0] == 'call' and T.dotted(v[1]) == 'sorted' and T.kw(v, 'reverse') in (None, T.CONST_FALSE) and T.kw(v, 'key') is not None:
-            okk = True
-    if okk:
+    evf = run(ctx, fa, mode='fork')
+    for p in ret_paths(evf):
+        for v in T.strip_phi(p.value):
+            if v[0] == 'call' and T.dotted(v[1]) == 'sorted' and T.kw(v, 'reverse') in (None, T.CONST_FALSE) and T.kw(v, 'key') is not None:
+                okk = True if okk is not None else None
+            else:
+                # keys gathered into an ndarray and sorted by NumPy: sequence-valued keys (tuples) become a 2-D array, str / mixed keys change their ordering
+                ctx.violated('R1', fa, 'argsort helper not through sorted()', 'the helper behind sort_axis(key=) must order the positions with Python\'s sorted(range(len(seq)), key=...): '
+                             'got %s (keys coerced into an ndarray break for tuple-valued keys)' % T.show(v)[:80], node=p.node)
+                okk = None
+    if okk is None:
+        pass
+    elif okk:
         ctx.holds('R1', 'argsort helper: sorted(range(len(seq)), key=...) ascending')
     else:
         ctx.violated('R1', fa, 'argsort', 'the pure-python argsort must sort positions ascending by key(label)')
